@@ -555,7 +555,8 @@ def send_limits(S, D, N):
            cv['counterparty_max_accepted_htlcs'].t <= 483,
            Sv.t - out_total >= 0, V.t * 1000 - Sv.t - in_total >= 0, cur_l_ok, cur_r_ok] + [x <= V.t * 1000 for x in amt]
     in_range = z3.And(a.t >= minimum, a.t <= limit, a.t >= 1)
-    case = [z3.And(tag == k, X.zbool(funder.t) == fb_) for k in range(3) for fb_ in (True, False)]
+    shapes = [n == 0] + [z3.And(n >= 1, outb[0] == ob_) for ob_ in (True, False)]
+    case = [z3.And(tag == k, X.zbool(funder.t) == fb_, sh_) for k in range(3) for fb_ in (True, False) for sh_ in shapes]
     flat = []
     sy = [z3.Bool('o.h%d.outbound' % i) for i in range(N)]
     for i in range(N):
